@@ -39,7 +39,7 @@ ASSUMPTIONS = [
 ]
 REQUIRED_MONITORS = ['grid:patterns_loaded', 'contract:csvw_date_format:judged', 'tables:loaded', 'cells:compared',
                      'reach:to_pandas_read_csv_args', 'reach:process_dialect']
-REQUIRED_CLASSES = ['delimiter=,', 'delimiter=|', 'delimiter=tab', 'delimiter=;', 'encoding=utf-8', 'encoding=latin-1',
+REQUIRED_CLASSES = ['replaces=stale', 'replaces=alone', 'delimiter=,', 'delimiter=|', 'delimiter=tab', 'delimiter=;', 'encoding=utf-8', 'encoding=latin-1',
                     'encoding=utf-16', 'header=1', 'header=0', 'titles=1', 'bool=true|false', 'bool=Y|N', 'bool=1|0',
                     'type=boolean', 'type=integer', 'type=number', 'type=string', 'type=date', 'type=datetime']
 _counter = collections.Counter()
@@ -74,8 +74,13 @@ def write_table(d, name, header, rows, delimiter, encoding):
     return path
 
 
-def write_md(d, name, columns, dialect, url='same'):
+def write_md(d, name, columns, dialect, url='same', replaces=None):
     md = {'@context': 'http://www.w3.org/ns/csvw', 'url': name + '.csv', 'tableSchema': {'columns': columns}}
+    if replaces:
+        # provenance annotation naming the description this one replaces (a JSON string); tdda falls back on ITS encoding and
+        # delimiter where the dialect gives none
+        md['dc:replaces'] = json.dumps({'resources': [{'path': name + '.csv', 'encoding': replaces['encoding'],
+                                                       'dialect': {'csv': {'delimiter': replaces['delimiter']}}}]})
     if url == 'absent':
         del md['url']
     elif url == 'other-existing':
@@ -217,7 +222,10 @@ def gen_table(rng, i):
             'dialect_extras': {k_: v_ for k_, v_ in (('commentPrefix', '#'), ('quoteChar', '"'), ('doubleQuote', True), ('skipRows', 0),
                                                       ('skipInitialSpace', False), ('lineTerminators', ['\r\n', '\n']), ('trim', False),
                                                       ('skipBlankRows', False), ('skipColumns', 0))
-                               if rng.random() < 0.2}}
+                               if rng.random() < 0.2},
+            # 'stale': annotation disagreeing with an explicit dialect (the dialect is what describes the file); 'alone': the
+            # dialect leaves encoding and delimiter to the annotation
+            'replaces': rng.choice([None, None, None, 'stale', 'stale', 'same', 'alone'])}
 
 
 def run_table_case(ctx, case):
@@ -282,10 +290,18 @@ def run_table_case(ctx, case):
             dialect['headerRowCount'] = 0
         if how == 'count-beside-header-true':
             dialect['header'] = True         # CSVW: "header" is ignored when "headerRowCount" is given
-    mdpath = write_md(d, 'tab', columns, dialect, url=t.get('url', 'same'))
+    replaces = None
+    if t.get('replaces') == 'stale':
+        replaces = {'encoding': {'utf-8': 'latin-1', 'latin-1': 'utf-16', 'utf-16': 'utf-8'}.get(enc, 'utf-8'),
+                    'delimiter': {',': ';', '|': ',', '\t': '|', ';': '\t'}[t['delimiter']]}
+    elif t.get('replaces') in ('same', 'alone'):
+        replaces = {'encoding': enc, 'delimiter': t['delimiter']}
+        if t['replaces'] == 'alone':
+            del dialect['delimiter'], dialect['encoding']
+    mdpath = write_md(d, 'tab', columns, dialect, url=t.get('url', 'same'), replaces=replaces)
     nonnull = any(v is not None for c in t['cols'] for v in c['values'])
     cls = [('part=table',), ('delimiter=' + ('tab' if t['delimiter'] == '\t' else t['delimiter']),), ('encoding=' + enc,),
-           ('header=%d' % t['header'],), ('bool=' + t['bool'],), ('titles=%d' % any(c.get('title') for c in t['cols']),), ('url=' + t.get('url', 'same'),),
+           ('header=%d' % t['header'],), ('bool=' + t['bool'],), ('titles=%d' % any(c.get('title') for c in t['cols']),), ('url=' + t.get('url', 'same'),), ('replaces=%s' % t.get('replaces'),),
            ('format_spellings=' + '+'.join(sorted(set(c.get('format_spelling', 'inner') for c in t['cols'] if c['type'] in ('date', 'datetime', 'boolean')))),),
            ('n_bool_spellings=%d' % len(set(c.get('bool') for c in t['cols'] if c['type'] == 'boolean')),)] + [('type=' + c['type'],) for c in t['cols']]
     rec.case(case, nontrivial=nonnull, cls=cls)
